@@ -49,6 +49,49 @@ type snap struct {
 	repr   string
 	who    string
 	inTrim bool
+	shape  string // the rendering without end positions
+	ends   []int  // the end positions, in the order of the rendering
+}
+
+// shapeAndEnds renders a result without its end positions and lists those separately (an EMPTY
+// node's single position counts as an end): what the known finding KF-1 may change, and what not.
+func shapeAndEnds(n parsley.Node, base int) (string, []int) {
+	var sb strings.Builder
+	var ends []int
+	var walk func(n parsley.Node)
+	walk = func(n parsley.Node) {
+		switch v := n.(type) {
+		case nil:
+			sb.WriteString("<nil>")
+		case ast.NodeList:
+			sb.WriteString("{")
+			for i, c := range v {
+				if i > 0 {
+					sb.WriteString(" | ")
+				}
+				walk(c)
+			}
+			sb.WriteString("}")
+		case ast.EmptyNode:
+			sb.WriteString("EMPTY")
+			ends = append(ends, int(v.Pos())-base)
+		case *ast.NonTerminalNode:
+			fmt.Fprintf(&sb, "%s@%d[", v.Token(), int(v.Pos())-base)
+			for i, c := range v.Children() {
+				if i > 0 {
+					sb.WriteString(" ")
+				}
+				walk(c)
+			}
+			sb.WriteString("]")
+			ends = append(ends, int(v.ReaderPos())-base)
+		default:
+			fmt.Fprintf(&sb, "%s(%T)@%d", n.Token(), n, int(n.Pos())-base)
+			ends = append(ends, int(n.ReaderPos())-base)
+		}
+	}
+	walk(n)
+	return sb.String(), ends
 }
 
 type failRec struct {
@@ -112,7 +155,8 @@ func Build(g *Grammar, o BuildOpts) *Built {
 				panic(budgetExceeded{})
 			}
 			if n != nil && probe.Snap {
-				probe.snaps = append(probe.snaps, snap{n, RenderResult(n, 1), who, inTrim})
+				sh, en := shapeAndEnds(n, 1)
+				probe.snaps = append(probe.snaps, snap{n, RenderResult(n, 1), who, inTrim, sh, en})
 			}
 			return n, cp, err
 		})
